@@ -9,7 +9,7 @@ def run(rep, tier, seed):
                 "site / in a range / in a block / in content; every ordered selection of named arguments for a block with a "
                 "no-default, a literal-default and a parameter-referencing default, declared in an import or used from a layout; "
                 "content supplied by caller / default / absent, nested content; all non-trivial; distinct by template set")
-    gen_and_replay(rep, wd, exe, "Gen_C08.tla", "C08", {}, {}, timeout=3000)
+    gen_and_replay(rep, wd, exe, "Gen_C08.tla", "C08", {"Families": '{"tree", "params", "shared", "alias", "content"}'}, {}, timeout=3000)
     rep.exhaustive = True
 
 def replay(path):
